@@ -387,7 +387,11 @@ func run(seed uint64, tier, outDir string) error {
 		base := seeds[r.n(len(seeds))]
 		st.checkText("respaced", r.respace(base), r.chance(20), i%emitEvery == 0)
 	}
+	fmt.Fprintf(st.w, "ENDFILE %d\n", st.nextID)
 	if err := st.w.Flush(); err != nil {
+		return err
+	}
+	if err := cf.Sync(); err != nil {
 		return err
 	}
 
@@ -482,7 +486,10 @@ func replay(file, outDir string) error {
 		st.checkText(f.Stream, []byte(f.Text), f.Hex, true)
 		fmt.Printf("text (hex=%v):\n%s\n", f.Hex, f.Text)
 	}
-	st.w.Flush()
+	fmt.Fprintf(st.w, "ENDFILE %d\n", st.nextID)
+	if err := st.w.Flush(); err != nil {
+		return err
+	}
 	if len(st.fails) == 0 {
 		fmt.Println("REPLAY: the property holds on this case")
 	}
